@@ -109,27 +109,23 @@ fn sort_printed_planes(args: &Args, planes_vector: &mut Vec<(&u32, &Plane)>) {
                     });
                 }
                 'd' => {
-                    planes_vector.sort_by_cached_key(|&(_, p)| {
-                        p.distance_from_observer.unwrap_or(0.0) as i32
-                    });
+                    planes_vector.sort_by(|(_, a), (_, b)| distance_key(a).total_cmp(&distance_key(b)));
                 }
                 'D' => {
-                    planes_vector.sort_by_cached_key(|&(_, p)| {
-                        p.distance_from_observer.unwrap_or(0.0) as i32
-                    });
+                    planes_vector.sort_by(|(_, a), (_, b)| distance_key(a).total_cmp(&distance_key(b)));
                     planes_vector.reverse();
                 }
                 'N' => {
-                    planes_vector.sort_by_cached_key(|&(_, p)| p.lat as i32);
+                    planes_vector.sort_by(|(_, a), (_, b)| a.lat.total_cmp(&b.lat));
                 }
                 'S' => {
-                    planes_vector.sort_by_cached_key(|&(_, p)| -(p.lat as i32));
+                    planes_vector.sort_by(|(_, a), (_, b)| b.lat.total_cmp(&a.lat));
                 }
                 'W' => {
-                    planes_vector.sort_by_cached_key(|&(_, p)| p.lon as i32);
+                    planes_vector.sort_by(|(_, a), (_, b)| a.lon.total_cmp(&b.lon));
                 }
                 'E' => {
-                    planes_vector.sort_by_cached_key(|&(_, p)| -(p.lon as i32));
+                    planes_vector.sort_by(|(_, a), (_, b)| b.lon.total_cmp(&a.lon));
                 }
                 's' => {
                     planes_vector.sort_by_cached_key(|&(_, p)| p.squawk);
@@ -144,6 +140,10 @@ fn sort_printed_planes(args: &Args, planes_vector: &mut Vec<(&u32, &Plane)>) {
             }
         }
     }
+}
+
+fn distance_key(plane: &Plane) -> f64 {
+    plane.distance_from_observer.unwrap_or(0.0)
 }
 
 impl Default for Planes {
